@@ -413,3 +413,30 @@ def alias_mutation_rule(ctx, rule, funcs, why):
                   (f'{ast.unparse(bad[0][0])[:60]} mutates in place what is still {ast.unparse(bad[0][1])[:40]} of another object '
                    f'(no copy on that path): {why}') if bad else '')
     return n
+
+
+def proxy(ctx, prefix, needs=False):
+    """a view of ctx that files every obligation of a shared rule under `prefix.<suffix of the original rule name>`"""
+    class Proxy:
+        def __getattr__(self, n):
+            return getattr(ctx, n)
+
+        @staticmethod
+        def _nm(rule):
+            return prefix + '.' + (rule.split('.', 1)[1] if '.' in rule else rule)
+
+        def check(self, rule, *a, **k):
+            return ctx.check(self._nm(rule), *a, **k)
+
+        def ok(self, rule, *a, **k):
+            return ctx.ok(self._nm(rule), *a, **k)
+
+        def bad(self, rule, *a, **k):
+            return ctx.bad(self._nm(rule), *a, **k)
+
+        def cannot(self, rule, *a, **k):
+            return ctx.cannot(self._nm(rule), *a, **k)
+
+        def need(self, rule, *a, **k):
+            return ctx.need(self._nm(rule), *a, **k) if needs else None
+    return Proxy()
